@@ -748,6 +748,25 @@ class C04(Oracle):
                 inacc_now = any(Q.unscale(c, nf) != v for c, v in zip(gl, il))
             else:
                 judged_exact = False    # nothing stored (empty region) or non-integer storage
+                if not gl and st.kind == 'indexed' and st.outcome == 'ok' and sw is None and \
+                        'selfreset_at' not in st.extra and not st.nested:
+                    # The index selects no element: nothing is stored, so no stored element can differ
+                    # from its input - the inaccuracy flag must not come up and nobody is to be told of
+                    # an inexact store.  (Overflow / underflow speak of the rounded input elements, which
+                    # exist although none is stored: not judged here.)
+                    w.bump('c04_empty_region_write_judged')
+                    if post['inaccuracy'] and not pflags.get('inaccuracy', False) and not src_inacc:
+                        w.violation('C04', 'flag-inaccuracy', st,
+                                    {'flag': 'inaccuracy', 'before': False, 'after': True,
+                                     'what': 'the index selects no element: nothing was stored',
+                                     'fmt': [s, nw, nf], 'input': [str(v) for v in vals[1]][:6]}, culprit)
+                        return
+                    if any(site == 'on_status_inaccuracy' and k == st.dest for (c, site, k) in st.cb_events):
+                        w.violation('C04', 'callback-on_status_inaccuracy', st,
+                                    {'site': 'on_status_inaccuracy', 'expected': 0,
+                                     'what': 'the index selects no element: nothing was stored',
+                                     'fmt': [s, nw, nf], 'input': [str(v) for v in vals[1]][:6]}, culprit)
+                        return
         if judged_exact and sto.arith is not None:
             # the flags of an arithmetic result are judged against the exact result only when the
             # library stored exactly its quantization; a wrong VALUE is C07/C08's subject, not C04's
